@@ -10,6 +10,31 @@ NOTE = ("Trusted base: Python semantics as modelled by sa/cfg.py (statement CFG 
         "structural necessary conditions, not the behaviour; see DESIGN.md section 3 for 'decides / does not decide'.")
 
 CHECKS = {
+    "C01": dict(
+        text="Static: dirty-flag discipline (every store to an attribute that _serialize reads - computed by def-use from the "
+             "serializer - is paired on all paths with an invalidation of the cached id, fresh receivers exempt by typestate), "
+             "dominance of the dirty-flag test over the cached hash, header-table agreement between the Commit/Tag "
+             "serializers and parsers (unknown headers kept/refused, parsed attributes == serialised attributes), single "
+             "canonical tree ordering with Python/Rust key agreement. Quantifies over every setter and edit order; does not "
+             "decide parse(serialise(x)) == x nor byte equality with C git.",
+        technique="typestate on dirty flag + def-use of the serializer; writer/reader table agreement; Python/Rust sibling check",
+        ref="3 C01"),
+    "C10": dict(
+        text="Static: ordering new-pack-before-delete, provenance of every deletion in gc.py from find_unreachable_objects "
+             "through the grace gate, completeness of roots and edges of the reachability walk, sibling agreement that every "
+             "pack dereference in a reader tolerates PackFileDisappeared, and rescan-after-loose-miss before a final miss. "
+             "The racing interleaving a test would need is replaced by a path property. Does not decide reachability over "
+             "runtime graphs.",
+        technique="never-before ordering, provenance dataflow with gate dominance, sibling cross-check (contradiction rule)",
+        ref="3 C10"),
+    "C14": dict(
+        text="Static: fallback and validation structure around each accelerator: a commit-graph miss falls back to the store "
+             "at every use site and the graph only replaces the default parents function; a MIDX hit dereferences the pack "
+             "before answering (contradiction rule between get_raw and contains_packed); Pack.bitmap is checksum-bound and "
+             "every access tolerates a missing file; the commit-graph writer references every encoding the reader "
+             "interprets; the packed-refs cache is identity-checked. Does not decide equality of answers over histories.",
+        technique="sibling cross-check of fallback structure, must-pass-through, writer/reader constant coverage",
+        ref="3 C14"),
     "C13": dict(
         text="Static: taint analysis with implicit flows and origin tracking over graph.py and walk.py: no continue/break/"
              "return/skipped push of a traversal is control dependent on a test reading a commit timestamp (walk.py: unless "
